@@ -1649,10 +1649,7 @@ void x509FreeExtensions(x509v3extensions_t *extensions)
         {
             inc = active->next;
             psFree(active->data, extensions->pool);
-            if (active->oidLen > 0)
-            {
-                psFree(active->oid, extensions->pool);
-            }
+            psFree(active->oid, extensions->pool);
             psFree(active, extensions->pool);
             active = inc;
         }
@@ -1665,10 +1662,7 @@ void x509FreeExtensions(x509v3extensions_t *extensions)
         {
             inc = active->next;
             psFree(active->data, extensions->pool);
-            if (active->oidLen > 0)
-            {
-                psFree(active->oid, extensions->pool);
-            }
+            psFree(active->oid, extensions->pool);
             psFree(active, extensions->pool);
             active = inc;
         }
@@ -1700,6 +1694,7 @@ void x509FreeExtensions(x509v3extensions_t *extensions)
         {
             inc = active->next;
             psFree(active->data, extensions->pool);
+            psFree(active->oid, extensions->pool);
             psFree(active, extensions->pool);
             active = inc;
         }
@@ -1714,6 +1709,7 @@ void x509FreeExtensions(x509v3extensions_t *extensions)
         {
             inc = active->next;
             psFree(active->data, extensions->pool);
+            psFree(active->oid, extensions->pool);
             psFree(active, extensions->pool);
             active = inc;
         }
